@@ -1,5 +1,5 @@
 (* C02 — concurrent Set/Get/Delete histories are linearizable per key. (a) LinCheck.v: a VERIFIED decision procedure for linearizability against the lossy register (sound and complete), its windowed form, and the three consequences named in the property; the conc stream feeds real histories to the extracted checker. (b) HtableLtsProofs.v: lock-free lookups against the single writer at the granularity of atomic loads/stores: a hit returns an item of that key alive during the lookup, a miss overlaps an instant at which the key was unpublished. (c) the strict statement is refuted on the table LTS inside ONE in-flight insert (present/absent/present): finding F10. Only `exact` + Print Assumptions. (c) MutexLinearizability.v: for LRU / LFU / FIFO every Set, Delete and Get runs under the shard lock; any object whose operations are lock-protected bodies is linearizable with the lock acquisition as linearization point, instantiated to the lossy register of LinCheck. *)
-Require Import KV.Base KV.HtableModel KV.HtableProofs KV.HtableTrace KV.HtableLts KV.HtableLtsProofs KV.LinCheck KV.MutexAtomicity KV.MutexLinearizability.
+Require Import KV.Base KV.HtableModel KV.HtableProofs KV.HtableTrace KV.HtableLts KV.HtableLtsProofs KV.LinCheck KV.MutexAtomicity KV.MutexLinearizability KV.ItemImmutable.
 Open Scope Z_scope.
 
 (* the checker accepts exactly the linearizable histories of the lossy register *)
@@ -77,9 +77,9 @@ Theorem c02_reader_hit_sound :
          rpcof (rth (lfinal g0 sch) r) <> RB ->
          rscript (rth (lfinal g0 sch) r) = rest ->
          HtableLts.lstep (lfinal g0 sch) (S r) = Some (g2, [0; 1; v]) ->
-         exists it : item,
-           ikey it = k /\
-           ival it = v /\ (exists gj : gstate, In gj (ltrace g0 sch) /\ alive_in it gj).
+         exists it : HtableModel.item,
+           HtableModel.ikey it = k /\
+           HtableModel.ival it = v /\ (exists gj : gstate, In gj (ltrace g0 sch) /\ alive_in it gj).
 Proof. exact reader_sound_hit. Qed.
 
 (* lock-free miss: the key was unpublished at some instant during the lookup *)
@@ -101,7 +101,7 @@ Theorem c02_resident_found :
   forall hashf : Z -> Z,
          (forall k : Z, 0 <= hashf k) ->
          forall (g0 : gstate) (r : nat) (k h : Z) (rest : list rop) (sch : list nat) 
-           (g2 : gstate) (o : list Z) (x : item),
+           (g2 : gstate) (o : list Z) (x : HtableModel.item),
          HtableLtsProofs.reachable hashf g0 ->
          rpcof (rth g0 r) = RB ->
          rscript (rth g0 r) = RLookup k h :: rest ->
@@ -109,10 +109,10 @@ Theorem c02_resident_found :
          rscript (rth (lfinal g0 sch) r) = rest ->
          HtableLts.lstep (lfinal g0 sch) (S r) = Some (g2, o) ->
          rpcof (rth g2 r) = RB ->
-         ikey x = k ->
+         HtableModel.ikey x = k ->
          (forall gj : gstate,
           In gj (ltrace g0 sch) -> exists p : nat, published (cur_arr (gmem gj)) p x) ->
-         o = [0; 1; ival x].
+         o = [0; 1; HtableModel.ival x].
 Proof. exact resident_key_found. Qed.
 
 (* a key absent throughout is not found *)
@@ -128,7 +128,8 @@ Theorem c02_absent_not_found :
          rscript (rth (lfinal g0 sch) r) = rest ->
          HtableLts.lstep (lfinal g0 sch) (S r) = Some (g2, o) ->
          rpcof (rth g2 r) = RB ->
-         (forall (gj : gstate) (it : item), In gj (ltrace g0 sch) -> alive_in it gj -> ikey it <> k) ->
+         (forall (gj : gstate) (it : HtableModel.item),
+          In gj (ltrace g0 sch) -> alive_in it gj -> HtableModel.ikey it <> k) -> 
          o = [0; 0; 0].
 Proof. exact absent_key_not_found. Qed.
 
@@ -144,12 +145,13 @@ Theorem c02_never_wrong_key :
          rpcof (rth (lfinal g0 sch) r) <> RB ->
          rscript (rth (lfinal g0 sch) r) = rest ->
          HtableLts.lstep (lfinal g0 sch) (S r) = Some (g2, [0; 1; v]) ->
-         exists it : item, ikey it = k /\ ival it = v.
+         exists it : HtableModel.item, HtableModel.ikey it = k /\ HtableModel.ival it = v.
 Proof. exact never_wrong_key. Qed.
 
 (* every history of lock-protected calls (write-locked bodies and read-locked observations, any threads, any schedule) is linearizable; the witness order is the lock-acquisition order *)
 Theorem c02_lock_protected_linearizable :
-  forall (S R : Type) (s0 : S) (scripts : list (list (op S R))) (w : wstate S R),
+  forall (S R : Type) (s0 : S) (scripts : list (list (MutexAtomicity.op S R)))
+           (w : wstate S R),
          wreachable s0 scripts w ->
          linearizable_with s0 (w_hist w) (spec_run s0 (w_lin w)) /\
          writes_of (w_lin w) = g_acq (w_st w).
@@ -157,13 +159,14 @@ Proof. exact MutexLinearizability.lock_protected_linearizable. Qed.
 
 (* ...in existential form *)
 Theorem c02_lock_protected_history_linearizable :
-  forall (S R : Type) (s0 : S) (scripts : list (list (op S R))) (w : wstate S R),
-         wreachable s0 scripts w -> linearizable s0 (w_hist w).
+  forall (S R : Type) (s0 : S) (scripts : list (list (MutexAtomicity.op S R)))
+           (w : wstate S R), wreachable s0 scripts w -> linearizable s0 (w_hist w).
 Proof. exact MutexLinearizability.lock_protected_history_linearizable. Qed.
 
 (* instantiated to one key as a lossy register (Set / rejected Set / Delete / Get / Exists / silent eviction): the history is linearizable in LinCheck's sense *)
 Theorem c02_locked_register_linearizable :
-  forall (s0 : LossyRegister.V) (scripts : list (list (op LossyRegister.V LossyRegister.Rr)))
+  forall (s0 : LossyRegister.V)
+           (scripts : list (list (MutexAtomicity.op LossyRegister.V LossyRegister.Rr)))
            (w : wstate LossyRegister.V LossyRegister.Rr),
          LossyRegister.reg_scripts scripts ->
          wreachable s0 scripts w -> LinCheck.linearizable s0 (LossyRegister.reg_calls s0 w).
@@ -171,7 +174,8 @@ Proof. exact MutexLinearizability.LossyRegister.register_linearizable. Qed.
 
 (* locked policies: a Get invoked after Set v2 returned (itself invoked after Set v1 returned) does not return v1 *)
 Theorem c02_locked_no_stale_read :
-  forall (s0 : LossyRegister.V) (scripts : list (list (op LossyRegister.V LossyRegister.Rr)))
+  forall (s0 : LossyRegister.V)
+           (scripts : list (list (MutexAtomicity.op LossyRegister.V LossyRegister.Rr)))
            (w : wstate LossyRegister.V LossyRegister.Rr) (t1 q1 p1 : nat)
            (c1 : lcall LossyRegister.V LossyRegister.Rr) (r1 : res LossyRegister.Rr) 
            (t2 q2 p2 : nat) (c2 : lcall LossyRegister.V LossyRegister.Rr) 
@@ -192,7 +196,8 @@ Proof. exact MutexLinearizability.LossyRegister.get_not_stale_direct. Qed.
 
 (* locked policies: a Get invoked after a Delete returned does not return the deleted value *)
 Theorem c02_locked_no_value_after_delete :
-  forall (s0 : LossyRegister.V) (scripts : list (list (op LossyRegister.V LossyRegister.Rr)))
+  forall (s0 : LossyRegister.V)
+           (scripts : list (list (MutexAtomicity.op LossyRegister.V LossyRegister.Rr)))
            (w : wstate LossyRegister.V LossyRegister.Rr) (t1 q1 p1 : nat)
            (c1 : lcall LossyRegister.V LossyRegister.Rr) (r1 : res LossyRegister.Rr) 
            (td qd pd : nat) (cd : lcall LossyRegister.V LossyRegister.Rr) 
@@ -241,6 +246,16 @@ Theorem c02_atomic_refuted :
             completions (filter (fun _ : list Z => true) (snd (HtableLts.lrun g3 [0%nat]))) = []).
 Proof. exact Flicker.atomic_flicker_refuted. Qed.
 
+(* a paused lock-free read never returns a mixture or another key's write *)
+Theorem c02_paused_read_delivers_one_write :
+  forall (before : list op) (k : Z) (p : nat) (after : list op),
+         let s := run false init before in
+         lookup (tab s) k = Some p ->
+         exists it : item,
+           resume s p = Some it /\
+           resume (run false s after) p = Some it /\ ikey it = k /\ In it (log s).
+Proof. exact ItemImmutable.paused_read_delivers_one_write. Qed.
+
 Print Assumptions c02_checker_correct.
 Print Assumptions c02_windowed_checker_correct.
 Print Assumptions c02_stream_checker_correct.
@@ -259,3 +274,4 @@ Print Assumptions c02_locked_no_stale_read.
 Print Assumptions c02_locked_no_value_after_delete.
 Print Assumptions c02_real_time_timestamps.
 Print Assumptions c02_atomic_refuted.
+Print Assumptions c02_paused_read_delivers_one_write.
